@@ -76,6 +76,7 @@ type Rule struct {
 	Phase   string `json:"phase,omitempty"`   // split|main|join
 	Job     string `json:"job,omitempty"`     // logical job id (canonical relative metadata path), exact
 	Attempt int    `json:"attempt,omitempty"` // 1-based; 0 = any
+	JobPrefix string `json:"job_prefix,omitempty"` // logical job id starts with this
 	// Effects.
 	DelayBeforeMs int    `json:"delay_before_ms,omitempty"`
 	DelayAfterMs  int    `json:"delay_after_ms,omitempty"`
